@@ -396,12 +396,26 @@ pub fn run(seed: u64, count: usize, outdir: &str, jit: bool) -> std::io::Result<
             writeln!(oracle, "FAIL case={ci} kind=simplify-badtrace {kindtag}").unwrap();
         } else if levels.len() >= 2 {
             let base = &levels[0];
+            // the recorded finding nan-hidden-by-interval (KNOWN_FINDINGS, C04): a sample at which some node of the expression is NaN
+            // while the interval the evaluator computed for that node over the box is not the NaN interval; every difference
+            // between the original and a simplified function must then be at such a sample, the original giving NaN there
+            let hidden_at: Vec<bool> = match &inp { Input::Box_(bx) => {
+                let nodes: Vec<fidget_core::context::Node> = (0..dag.ctx.len()).map(fidget_core::context::Node::verif_new)
+                    .filter(|nd| !matches!(dag.ctx.get_op(*nd), Some(fidget_core::context::Op::Const(_)))).collect();
+                let ivs = if use_jit { JitFunction::new(&dag.ctx, &nodes).ok().and_then(|f| interval_eval(&f, &dag.vs, bx).ok()).map(|x| x.0) }
+                          else { GenericVmFunction::<255>::new(&dag.ctx, &nodes).ok().and_then(|f| interval_eval(&f, &dag.vs, bx).ok()).map(|x| x.0) };
+                let vf = GenericVmFunction::<255>::new(&dag.ctx, &nodes).ok();
+                samples.iter().map(|sp| match (&ivs, &vf) { (Some(iv), Some(vf)) => point_eval(vf, &dag.vs, sp).map(|(pv, _)| pv.iter().zip(iv).any(|(v, i)| v.is_nan() && !i.lower().is_nan() && !i.upper().is_nan())).unwrap_or(false), _ => false }).collect() }
+                _ => vec![false; samples.len()] };
+            let excused = |orig: &[Vec<f32>], simp: &[Vec<f32>]| -> bool {
+                orig.len() == simp.len() && orig.iter().zip(simp).enumerate().all(|(k, (a, b))| fmt_bits(a) == fmt_bits(b) || (hidden_at.get(k).copied().unwrap_or(false) && a.iter().zip(b).all(|(x, y)| canon_bits(*x) == canon_bits(*y) || x.is_nan()))) };
             for (li, l) in levels.iter().enumerate().skip(1) {
                 if !l.ok || !base.ok { continue; }
                 let same = base.outs.iter().zip(&l.outs).all(|(a, b)| fmt_bits(a) == fmt_bits(b));
                 if !same {
                     fails += 1;
-                    writeln!(oracle, "FAIL case={ci} kind=value-changed level={li} {kindtag}").unwrap();
+                    let kind = if excused(&base.outs, &l.outs) { "nan-hidden-by-interval" } else { "value-changed" };
+                    writeln!(oracle, "FAIL case={ci} kind={kind} level={li} {kindtag}").unwrap();
                 }
                 if !l.slice_outs.is_empty() && !base.slice_outs.is_empty() {
                     let z = |v: &Vec<f32>| fmt_bits(&v.iter().map(|x| if *x == 0.0 { 0.0 } else { *x }).collect::<Vec<f32>>());
@@ -410,7 +424,8 @@ pub fn run(seed: u64, count: usize, outdir: &str, jit: bool) -> std::io::Result<
                     let same = base.slice_outs.iter().zip(&l.slice_outs).all(|(a, b)| z(a) == z(b));
                     if !same {
                         fails += 1;
-                        writeln!(oracle, "FAIL case={ci} kind=slice-value-changed level={li} {kindtag} original {:?} simplified {:?}", base.slice_outs.iter().map(|a| z(a)).collect::<Vec<_>>(), l.slice_outs.iter().map(|a| z(a)).collect::<Vec<_>>()).unwrap();
+                        let kind = if excused(&base.slice_outs, &l.slice_outs) { "nan-hidden-by-interval" } else { "slice-value-changed" };
+                        writeln!(oracle, "FAIL case={ci} kind={kind} (many-point outputs) level={li} {kindtag} original {:?} simplified {:?}", base.slice_outs.iter().map(|a| z(a)).collect::<Vec<_>>(), l.slice_outs.iter().map(|a| z(a)).collect::<Vec<_>>()).unwrap();
                     }
                 }
                 // the child keeps the parent's variable numbering (it may only drop variables) and output count
